@@ -7,7 +7,7 @@ import re
 
 from ..core import AnalysisError, norm, calls_in, call_name, last_attr, walk_no_nested, parent
 from ..consteval import try_fold, module_env
-from ..cfg import CFG, guard_conditions
+from ..cfg import CFG, guard_conditions, implied_conditions
 from ..slicer import Slicer
 
 CU = "cu2qu/cu2qu.py"
@@ -23,7 +23,9 @@ def accept_guard(ctx, repo):
     # --- curve_to_quadratic
     f = m.func("curve_to_quadratic")
     rets = [n for n in walk_no_nested(f.node) if isinstance(n, ast.Return)]
-    ok = len(rets) == 1 and any(norm(t) == "spline is not None" for t, pol in guard_conditions(rets[0]) if pol)
+    g0 = CFG(f.node)
+    valrets = [r for r in rets if r.value is not None and norm(r.value) != "None"]
+    ok = len(valrets) == 1 and ("spline is None", False) in implied_conditions(g0, valrets[0])
     ctx.ob("F25", f.where, "return only under `spline is not None`", ok, "" if ok else "a spline can be returned without having been accepted")
     calls = [c for c in calls_in(f.node) if call_name(c) == "cubic_approx_spline"]
     ok = len(calls) == 1 and len(calls[0].args) >= 3 and norm(calls[0].args[2]) == "max_err"
@@ -41,16 +43,18 @@ def accept_guard(ctx, repo):
     g = CFG(f.node)
     rets = [n for n in walk_no_nested(f.node) if isinstance(n, ast.Return)]
     nonempty = [r for r in rets if norm(r.value) != "[]"]
-    ok = len(nonempty) == 1 and any(norm(t) == "i == last_i" for t, pol in guard_conditions(nonempty[0]) if pol)
+    ok = len(nonempty) == 1 and ("i == last_i", True) in implied_conditions(g, nonempty[0]) and ("spline is None", False) in implied_conditions(g, nonempty[0])
     ctx.ob("F25", f.where, "splines returned only when a full round (i == last_i) was accepted with the same n", ok, "" if ok else "splines with different segment counts (or unaccepted ones) can be returned")
     calls = [c for c in calls_in(f.node) if call_name(c) == "cubic_approx_spline"]
     ok = len(calls) == 1 and len(calls[0].args) >= 3 and isinstance(calls[0].args[0], ast.Subscript) and isinstance(calls[0].args[2], ast.Subscript) and norm(calls[0].args[0].slice) == norm(calls[0].args[2].slice) and norm(calls[0].args[2].value) == "max_errors" and norm(calls[0].args[0].value) == "curves"
     ctx.ob("F25", f.where, f"acceptance evaluated as {norm(calls[0]) if calls else None} (curve and tolerance share the index)", ok, "" if ok else "a curve is checked against another curve's tolerance")
-    rej = [n for n in walk_no_nested(f.node) if isinstance(n, ast.If) and norm(n.test) == "spline is None"]
-    ok = len(rej) == 1 and isinstance(rej[0].body[-1], ast.Continue) and any(isinstance(s, ast.Assign) and norm(s.targets[0]) == "last_i" and norm(s.value) == "i" for s in rej[0].body) and any(isinstance(s, ast.AugAssign) and norm(s.target) == "n" for s in rej[0].body)
+    bumps = [n for n in walk_no_nested(f.node) if isinstance(n, ast.AugAssign) and norm(n.target) == "n"]
+    resets = [n for n in walk_no_nested(f.node) if isinstance(n, ast.Assign) and norm(n.targets[0]) == "last_i" and norm(n.value) == "i" and ("spline is None", True) in implied_conditions(g, n)]
+    ok = len(bumps) == 1 and ("spline is None", True) in implied_conditions(g, bumps[0]) and len(resets) == 1
+    rej = bumps
     ctx.ob("F25", f.where, "a rejection bumps n, resets last_i = i and re-validates every curve", ok, "" if ok else "curves accepted with a smaller n are not re-validated after n grows")
     st = [n for n in walk_no_nested(f.node) if isinstance(n, ast.Assign) and norm(n.targets[0]) == "splines[i]"]
-    ok = len(st) == 1 and norm(st[0].value) == "spline" and all(g.dominates(g.id_of(r), g.id_of(st[0])) for r in rej)
+    ok = len(st) == 1 and norm(st[0].value) == "spline" and ("spline is None", False) in implied_conditions(g, st[0])
     ctx.ob("F25", f.where, "splines[i] stored only after the None test", ok)
     ok = isinstance(f.node.body[-1], ast.Raise) and "ApproxNotFoundError" in norm(f.node.body[-1])
     ctx.ob("F25", f.where, "exhaustion raises ApproxNotFoundError", ok)
